@@ -1297,4 +1297,41 @@ theorem esc_report_state (f : FSys) (hinv : FInv f) (i g : Nat) (hi : f.cbs[i]? 
   have := (hs hnd).2.1 (Or.inr (by simp [hfr]))
   simpa [hmid0] using this
 
+/-- A callback inside its critical section can always take its next statement. -/
+theorem crit_cb_enabled (f : FSys) (i g : Nat) (pc : CbPc) (hi : f.cbs[i]? = some (g, pc)) (hc : crit pc = true) :
+    (cbStep f i).isSome = true := by
+  unfold cbStep
+  rw [hi]
+  cases pc <;> simp_all [crit]
+
+/-- The mutex is never held for ever: if the main goroutine is not blocked in the read and not
+    finished, either its next statement is enabled or the callback that holds the mutex can move. -/
+theorem no_deadlock (T : Table) (f : FSys) (hinv : FInv f) (h1 : f.mpc ≠ .inRead) (h2 : f.mpc ≠ .done) :
+    (mainStep T f).isSome = true ∨ ∃ i, (cbStep f i).isSome = true := by
+  by_cases hm : f.mutex = none
+  · left
+    cases hpc : f.mpc with
+    | fin st v => cases st <;> simp [mainStep, hpc, hm]
+    | atSelect => simp only [mainStep, hpc]; split <;> rfl
+    | _ => simp_all [mainStep]
+  · by_cases hmm : f.mutex = some .main
+    · left
+      have hh := hinv.m1.mp hmm
+      cases hpc : f.mpc with
+      | fin st v => cases st <;> simp_all [mainStep, holdsMain]
+      | _ => simp_all [mainStep, holdsMain]
+    · right
+      have hcb : f.mutex = some .cb := by
+        cases hx : f.mutex with
+        | none => exact absurd hx hm
+        | some ow => cases ow with
+          | main => exact absurd hx hmm
+          | cb => rfl
+      have hn := hinv.m2
+      rw [if_pos hcb] at hn
+      have hpos : 0 < nCrit f.cbs := by omega
+      obtain ⟨c, hc, hcc⟩ := List.countP_pos_iff.mp hpos
+      obtain ⟨i, hi⟩ := List.getElem?_of_mem hc
+      exact ⟨i, crit_cb_enabled f i c.1 c.2 hi hcc⟩
+
 end VaxisModel.Lemmas.ParserRunFine
